@@ -409,7 +409,26 @@ func (f *FCFG) edgeEntails(b *cfg.Block, k int, cls func(e ast.Expr) (string, bo
 		}
 	}
 	collect(cond)
-	if len(names) > 12 {
+	// atoms the goal may talk about but this condition does not mention are
+	// universally quantified too: every classified atom of any condition of the
+	// function joins the enumeration (otherwise a missing atom would silently
+	// read as false and `!atom` goals would be entailed by unrelated edges).
+	for _, ob := range f.G.Blocks {
+		oc := f.CondOf(ob)
+		if oc == nil || ob == b {
+			continue
+		}
+		ast.Inspect(oc, func(n ast.Node) bool {
+			if e, ok := n.(ast.Expr); ok {
+				if nm, _ := cls(e); nm != "" && !seenName[nm] {
+					seenName[nm] = true
+					names = append(names, nm)
+				}
+			}
+			return true
+		})
+	}
+	if len(names) > 14 {
 		return false
 	}
 	var eval func(e ast.Expr, v map[string]bool) bool
